@@ -160,6 +160,81 @@ theorem checkSvc_some (p : Proj) (s : Svc) (e : Err) (h : checkSvc p s = some e)
   · exact ⟨.exclContainerName, h⟩
   · exact ⟨.xWatch, h⟩
 
+/-! ## the order of the rules and the class each one reports -/
+
+/-- the rules of the loop body of `checkConsistency`, in source order -/
+def svcRuleOrder : List Rule :=
+  [.image, .exclDockerfile, .xPlatform, .exclNetworkMode, .networks, .xHealthcheck, .dependsOn, .serviceRef, .volumes,
+   .buildSecrets, .configs, .secrets, .pairScale, .pairCpus, .pairMemLimit, .pairMemReservation, .pairPids,
+   .exclContainerName, .xWatch]
+
+/-- the error class of each rule -/
+def ruleErr : Rule → Err
+  | .image => .noImage | .exclDockerfile => .dockerfileExclusive | .xPlatform => .platformMismatch
+  | .exclNetworkMode => .networkModeExclusive | .networks => .undefinedNetwork | .xHealthcheck => .healthcheck
+  | .dependsOn => .undefinedDependency | .serviceRef => .networkModeService | .volumes => .undefinedVolume
+  | .buildSecrets => .undefinedBuildSecret | .configs => .undefinedConfig | .secrets => .undefinedSecret
+  | .pairScale => .scaleReplicas | .pairCpus => .cpus | .pairMemLimit => .memLimit
+  | .pairMemReservation => .memReservation | .pairPids => .pidsLimit | .exclContainerName => .containerNameScale
+  | .xWatch => .watchTarget
+
+/-- the loop body applies the rules in the order `svcRuleOrder` and reports the first failure -/
+theorem checkSvc_findSome (p : Proj) (s : Svc) : checkSvc p s = svcRuleOrder.findSome? (ruleCheck p s) := by
+  have hcons : ∀ (a : Rule) (l : List Rule), (a :: l).findSome? (ruleCheck p s) = orE (ruleCheck p s a) (l.findSome? (ruleCheck p s)) := by
+    intro a l
+    cases h : ruleCheck p s a <;> simp [List.findSome?_cons, orE, h]
+  have hnil : ∀ a : Option Err, orE a none = a := by intro a; cases a <;> rfl
+  simp only [svcRuleOrder, hcons, List.findSome?_nil, hnil, ruleCheck, checkSvc]
+
+/-- a rule function reports its own class and nothing else -/
+theorem ruleCheck_err (p : Proj) (s : Svc) (r : Rule) (e : Err) (h : ruleCheck p s r = some e) : e = ruleErr r := by
+  cases r <;> simp only [ruleCheck, ruleErr] at h ⊢
+  all_goals first
+    | (simp only [rImage, rNetworks, rVolumes, rSecrets, rConfigs, rDependsOn, rNetworkMode, rContainerName, rWatch, guard_some] at h; exact h.2.symm)
+    | skip
+  · -- buildSecrets
+    simp only [rBuildSecrets] at h; split at h
+    · exact ((guard_some.mp h).2).symm
+    · cases h
+  · -- serviceRef
+    simp only [rServiceRef] at h; split at h
+    · exact ((guard_some.mp h).2).symm
+    · cases h
+  · simp only [rDockerfile] at h; split at h
+    · cases h
+    · exact ((guard_some.mp h).2).symm
+  · simp only [rScale] at h; split at h
+    · split at h
+      · exact ((guard_some.mp h).2).symm
+      · cases h
+    · cases h
+  · simp only [rCpus] at h; split at h
+    · split at h
+      · exact ((guard_some.mp h).2).symm
+      · cases h
+    · cases h
+  · simp only [rMemLimit] at h; split at h
+    · split at h
+      · exact ((guard_some.mp h).2).symm
+      · cases h
+    · cases h
+  · simp only [rMemReservation] at h; split at h
+    · split at h
+      · exact ((guard_some.mp h).2).symm
+      · cases h
+    · cases h
+  · simp only [rPids] at h; split at h
+    · split at h
+      · exact ((guard_some.mp h).2).symm
+      · cases h
+    · cases h
+  · simp only [rPlatform] at h; split at h
+    · cases h
+    · exact ((guard_some.mp h).2).symm
+  · simp only [rHealthcheck] at h; split at h
+    · exact ((guard_some.mp h).2).symm
+    · cases h
+
 theorem checkSecret_iff (s : Secret) : checkSecret s = none ↔ (s.external = true ∨ s.file ≠ "" ∨ s.environment ≠ "") := by
   simp [checkSecret]
   grind
